@@ -75,6 +75,7 @@ def run(tier, seed):
     col.merge(stepcheck.explore(lit, MONS, 0, 0, seed=seed))
     col.merge(stepcheck.explore(stepcheck.edited_items(), MONS, 0, 0, seed=seed))  # runs after an earlier run and an in-place model edit
     col.merge(stepcheck.explore(F.scale_items(("TSLACK", "SPT")), MONS, 0, 0, seed=seed))  # medium-sized models (10-14 tasks / workers / machines), long absence lists
+    col.merge(stepcheck.explore(F.extra_items(("TSLACK", "SPT"), calendars=True), MONS, 0, 0, seed=seed))  # other ways of building the object graph; continuations under a revised calendar
     meta = {
         "level": "model_checking",
         "rule": "3-task FS/SS(/FF) workflows and 4 parallel tasks x worker layouts (one/two pooled, mixed, solo, fixed-ID lists incl. empty) x task rules "
